@@ -25,14 +25,12 @@ package tracer
 //@ monitor Tracer by mu: forall k1 string, k2 string :: has(self.traces, k1) && has(self.traces, k2) && k1 != k2 && self.traces[k1].done != nil ==> self.traces[k1].done != self.traces[k2].done
 
 //@ func (*Tracer).Init
-//@   requires t != nil ==> !held[t.mu]
 //@   modifies held, Tracer.traces, map[string]*traceResult
 //@   ensures t != nil ==> !held[t.mu]
 //@   ensures @pending t != nil ==> t.traces != nil && has(t.traces, testName) && fresh(t.traces[testName]) && t.traces[testName].done != nil
 //@   ensures @zero t != nil ==> t.traces[testName].trace.TestName == "" && len(t.traces[testName].trace.Events) == 0
 
 //@ func (*Tracer).Clear
-//@   requires t != nil ==> !held[t.mu]
 //@   modifies held, map[string]*traceResult
 //@   ensures t != nil ==> !held[t.mu]
 //@   ensures @gone t != nil ==> !has(t.traces, testName)
@@ -40,7 +38,6 @@ package tracer
 // Complete: only a pending slot of that name takes the trace (and becomes completed, its
 // channel closed); unknown, cleared and already completed names leave every slot as it was.
 //@ func (*Tracer).Complete
-//@   requires t != nil ==> !held[t.mu]
 //@   modifies held, traceResult.*, Trace.*, chanClosed
 //@   ensures t != nil ==> !held[t.mu]
 //@   ensures @first t != nil && atlock(has(t.traces, trace.TestName)) && atlock(t.traces[trace.TestName].done) != nil ==>
@@ -53,13 +50,15 @@ package tracer
 //@   ensures @others t != nil ==> forall r *traceResult :: (!atlock(has(t.traces, trace.TestName)) || r != atlock(t.traces[trace.TestName])) ==>
 //@        r.done == atlock(r.done) && r.trace.Events == atlock(r.trace.Events) && r.trace.TestName == atlock(r.trace.TestName)
 //@   ensures @slots t != nil ==> t.traces == atlock(t.traces)
+//@   ensures @closed-stay-closed forall c int :: old(chanClosed[c]) ==> chanClosed[c]
+//@   ensures @frame forall p *Trace :: !fresh(p) && (t == nil || !atlock(has(t.traces, trace.TestName)) || p != fieldaddr(atlock(t.traces[trace.TestName]), trace)) ==>
+//@        p.TestName == old(p.TestName) && p.Events == old(p.Events) && p.Request == old(p.Request) && p.Response == old(p.Response) && p.Err == old(p.Err)
 
 // Await: no tracer or no slot is an immediate error; otherwise the only trace ever handed out
 // is the slot's own trace record (the one the first Complete of that name fills), whether the
 // slot was already completed at the time of the call or the wait ended through its channel.
 // (That a wait ends when the context does is the select statement; not proved.)
 //@ func (*Tracer).Await
-//@   requires t != nil ==> !held[t.mu]
 //@   requires ctx != nil
 //@   modifies held
 //@   ensures @disabled t == nil ==> result_0 == nil && result_1 != nil
@@ -67,3 +66,54 @@ package tracer
 //@   ensures @slot t != nil && result_0 != nil ==> atlock(has(t.traces, testName)) && result_0 == fieldaddr(atlock(t.traces[testName]), trace) && result_1 == nil
 //@   ensures @completed t != nil && atlock(has(t.traces, testName)) && atlock(t.traces[testName].done) == nil ==> result_0 == fieldaddr(atlock(t.traces[testName]), trace) && result_1 == nil
 //@   ensures @exclusive !(result_0 != nil && result_1 != nil)
+
+// ---- builder: one completion per traced operation, nothing recorded afterwards (C16) ----
+// cplN[c]: number of traces handed to collector c; cplName / cplEvents: test name and event
+// list of the last one. (Ghost log of Collector.Complete calls, defined by its contract.)
+//@ ghost cplN: Collector -> int
+//@ ghost cplName: Collector -> string
+//@ ghost cplEvents: Collector -> []Event
+//@ func Collector.Complete
+//@   trusted
+//@   //# for a *Tracer the effect on the tracer's own slots is specified on (*Tracer).Complete
+//@   requires arg1.Request != nil //# collectors look at the request (its context); an active builder always has one
+//@   modifies cplN, cplName, cplEvents
+//@   ensures cplN == old(cplN)[self := old(cplN[self]) + 1] && cplName == old(cplName)[self := arg1.TestName] && cplEvents == old(cplEvents)[self := arg1.Events]
+
+//@ func Event.setEventOffset
+//@   trusted
+//@   modifies eventOffset.*
+
+// events that end the operation
+//@ spec finishes(e Event) bool = typeis(e, *ResponseError) || typeis(e, *ResponseBodyEnd) || typeis(e, *RequestCanceled) ||
+//@    (typeis(e, *RequestBodyEnd) && unbox(e, *RequestBodyEnd).Err != nil)
+// event values are non-nil pointers of their type
+//@ spec wfEvent(e Event) bool = (typeis(e, *RequestBodyData) ==> unbox(e, *RequestBodyData) != nil) && (typeis(e, *RequestBodyEnd) ==> unbox(e, *RequestBodyEnd) != nil) &&
+//@    (typeis(e, *ResponseStart) ==> unbox(e, *ResponseStart) != nil && unbox(e, *ResponseStart).Response != nil) && (typeis(e, *ResponseError) ==> unbox(e, *ResponseError) != nil) &&
+//@    (typeis(e, *ResponseBodyData) ==> unbox(e, *ResponseBodyData) != nil) && (typeis(e, *ResponseBodyEnd) ==> unbox(e, *ResponseBodyEnd) != nil)
+
+//@ guarded builder: reqCount, respCount by mu
+// an active builder (test name set) has its request; a cleared one is all zero
+//@ monitor builder by mu: (self.trace.TestName != "" ==> self.trace.Request != nil) && self.collector != nil
+
+//@ func (*builder).getAndClearLocked
+//@   requires b != nil && held[b.mu]
+//@   modifies Trace.*
+//@   ensures result.TestName == old(b.trace.TestName) && result.Events == old(b.trace.Events) && result.Request == old(b.trace.Request) && result.Response == old(b.trace.Response) && result.Err == old(b.trace.Err)
+//@   ensures b.trace.TestName == "" && len(b.trace.Events) == 0 && b.trace.Request == nil && b.trace.Response == nil && b.trace.Err == nil
+
+//@ func (*builder).finish
+//@   requires b != nil && b.collector != nil && (trace.TestName != "" ==> trace.Request != nil)
+//@   modifies ghosts:cpl*
+//@   ensures trace.TestName == "" ==> cplN == old(cplN)
+//@   ensures trace.TestName != "" ==> cplN[b.collector] == old(cplN[b.collector]) + 1 && cplName[b.collector] == trace.TestName && cplEvents[b.collector] == trace.Events
+
+// build: completes an active builder (once: it is cleared under the lock), does nothing on a
+// cleared one.
+//@ func (*builder).build
+//@   requires b != nil
+//@   modifies ghosts:cpl*, held @ b.mu, Trace.*
+//@   ensures !held[b.mu]
+//@   ensures @cleared b.trace.TestName == "" && len(b.trace.Events) == 0
+//@   ensures @once atlock(b.trace.TestName) == "" ==> cplN == old(cplN)
+//@   ensures @completed atlock(b.trace.TestName) != "" ==> cplN[b.collector] == old(cplN[b.collector]) + 1 && cplName[b.collector] == atlock(b.trace.TestName) && cplEvents[b.collector] == atlock(b.trace.Events)
